@@ -136,6 +136,18 @@ func runProperty(w *vc.World, prop, tier, repo string) *checkOutcome {
 		for _, u := range fc.Uses {
 			usedLemmas[u] = true
 		}
+		for _, u := range fc.UseCalls {
+			if c, ok := u.E.(vc.ECall); ok {
+				usedLemmas[c.Fun] = true
+			}
+		}
+		for _, ls := range fc.Loops {
+			for _, u := range ls.Lemmas {
+				if c, ok := u.E.(vc.ECall); ok {
+					usedLemmas[c.Fun] = true
+				}
+			}
+		}
 	}
 	for _, name := range w.C.LemOrd {
 		if hasProp(w.C.Lemmas[name].Props, prop) {
